@@ -273,11 +273,17 @@ FailedSilent == \A i \in 1..Len(out) : OkConn(out[i].c)
 Causal == \A i \in 1..Len(out) : calls[out[i].c] + script[out[i].c].lat <= out[i].at
 
 \* Back-off: closed form of the current value, of every scheduled sleep ...
-BackoffClosedForm == /\ cur = Min(policy.b0 * policy.mult ^ fails, policy.max)
+\* Min(b0 * mult^n, max), computed so that no intermediate leaves TLC's 32-bit integers however long
+\* the failure run is (b0 * mult^n itself overflows after a few dozen failures; the law saturates
+\* at max long before): "multiply up to the configured maximum"
+RECURSIVE SatPow(_)
+SatPow(n) == IF n = 0 THEN Min(policy.b0, policy.max)
+             ELSE LET p == SatPow(n - 1) IN IF p >= policy.max THEN policy.max ELSE Min(p * policy.mult, policy.max)
+BackoffClosedForm == /\ cur = (IF fails = 0 THEN policy.b0 ELSE SatPow(fails))
                      /\ fails = 0 => cur = policy.b0
 RECURSIVE FailRun(_)            \* consecutive failures ending with outcome j
 FailRun(j) == IF j = 0 \/ script[j].ok THEN 0 ELSE 1 + FailRun(j - 1)
-ExpWait(j) == Min(policy.b0 * policy.mult ^ (FailRun(j) - 1), policy.max)
+ExpWait(j) == SatPow(FailRun(j) - 1)
 NoticeAt(j) == LET i == CHOOSE i \in 1..Len(out) : out[i].c = j /\ out[i].k = "Notice" IN out[i].at
 \* ... and of the instants at which init is called: after a failure exactly the sleep later,
 \* after an ended connection at the instant of its notice.
